@@ -121,7 +121,7 @@ def stochast_unit(spec, exact, K, witness=False):
                 program=spec.describe(), max_paths=8000)
 
 
-def param_unit(form, entry):
+def param_unit(form, entry, iters=2):
     """deterministic simulation with randomly drawn parameters"""
     from pygom import SimulateOde, Transition, Event
     import scipy.stats
@@ -184,11 +184,11 @@ def param_unit(form, entry):
                 if c.mode == "sym":
                     with stubs.integrator_stubs(c, keyed=True):
                         if entry == "solve_determ":
-                            return m.solve_determ([t1, t2], iteration=2, full_output=True)
-                        return m.simulate_param([t1, t2], 2, full_output=True)
+                            return m.solve_determ([t1, t2], iteration=iters, full_output=True)
+                        return m.simulate_param([t1, t2], iters, full_output=True)
                 if entry == "solve_determ":
-                    return m.solve_determ([t1, t2], iteration=2, full_output=True)
-                return m.simulate_param([t1, t2], 2, full_output=True)
+                    return m.solve_determ([t1, t2], iteration=iters, full_output=True)
+                return m.simulate_param([t1, t2], iters, full_output=True)
         if form == "frozen_then_constant":
             # set-up history BEFORE the seeded runs (its own, unrelated stream): both parameters random, then one of
             # them fixed by a later partial dict update
@@ -204,13 +204,13 @@ def param_unit(form, entry):
         YB, LB = run("g")
         c.reachable("two runs completed")
         c.prove(same([YA, LA], [YB, LB], c), "same seed => identical mean trajectory and individual runs")
-        c.prove(len(LA) == 2, "one solution per iteration")
-        mean = [[(LA[0][i][j] + LA[1][i][j]) / 2 for j in range(2)] for i in range(len(LA[0]))]
+        c.prove(len(LA) == iters, "one solution per iteration")
+        mean = [[zsum(LA[k][i][j] for k in range(iters)) / iters for j in range(2)] for i in range(len(LA[0]))]
         c.prove(all_close(YA, mean, c), "reported mean trajectory == mean of the individual runs returned")
         c.witness(~(LA[0][1][0] == LA[1][1][0]) if isinstance(LA[0][1][0] == LA[1][1][0], SymBool) else True,
                   "different draws within a run can give different trajectories")
-    return Unit("C16.params[%s,%s]" % (form, entry), h,
-                bounds={"iterations": 2, "times": 2, "model": "S'=-bSJ, J'=bSJ-gJ with b random"}, program={"model": "sir2", "form": form},
+    return Unit("C16.params[%s,%s%s]" % (form, entry, "" if iters == 2 else ",iterations=%d" % iters), h,
+                bounds={"iterations": iters, "times": 2, "model": "S'=-bSJ, J'=bSJ-gJ with b random"}, program={"model": "sir2", "form": form},
                 tol=1e-5)
 
 
@@ -236,12 +236,15 @@ class C16(Check):
               stochast_unit(specs["shape_1x2"], False, 2),
               param_unit("tuple", "solve_determ"), param_unit("frozen", "solve_determ"),
               param_unit("tuple_kwargs", "simulate_param"), param_unit("frozen", "simulate_param"),
-              param_unit("frozen_then_constant", "solve_determ")]
+              param_unit("frozen_then_constant", "solve_determ"),
+              # a PRIME iteration count: any block-wise / chunked averaging with block size < 101 shows
+              param_unit("tuple", "simulate_param", iters=101), param_unit("frozen", "solve_determ", iters=3)]
         if tier != "quick":
             us += [stochast_unit(specs["shape_2x2"], True, 4), stochast_unit(specs["shape_2x2"], False, 3),
                    stochast_unit(expr.by_name("sir"), True, 4), stochast_unit(specs["shape_3x3"], True, 3),
                    param_unit("tuple", "simulate_param"), param_unit("tuple_kwargs", "solve_determ"),
-                   param_unit("frozen_then_constant", "simulate_param")]
+                   param_unit("frozen_then_constant", "simulate_param"),
+                   param_unit("tuple", "solve_determ", iters=1009), param_unit("frozen", "simulate_param", iters=101)]
         return us
 
 
